@@ -8,7 +8,7 @@ from util import call, quiet
 
 REQUIRED_THEOREMS = ['Usid.C08.indices_formula', 'Usid.C08.each_combination_once', 'Usid.C08.position_is_transpose',
                      'Usid.C08.written_slowest_first', 'Usid.C08.make_indices_matrix']
-RULE = ('[also: values not increasing / not distinct; defaults relied upon, tuples, a bare Dimension / int, Dimension(int length), base_name, verbose, a nested parent; thorough: every size tuple (<= 3 dims) under all four flag combinations] [values handed over as float lists, python ints, int64 / int32 / uint8 / float32 arrays] tuples of dimension sizes (1..4 per dimension, up to 4 dimensions; thorough: ALL such tuples) with non-uniform '
+RULE = ('[also: the sequence of the caller re-read after the call and the same sequence written a second time] [also: values not increasing / not distinct; defaults relied upon, tuples, a bare Dimension / int, Dimension(int length), base_name, verbose, a nested parent; thorough: every size tuple (<= 3 dims) under all four flag combinations] [values handed over as float lists, python ints, int64 / int32 / uint8 / float32 arrays] tuples of dimension sizes (1..4 per dimension, up to 4 dimensions; thorough: ALL such tuples) with non-uniform '
         'dyadic values (quarters), labels/units with deliberate repeats, is_spectral in {F,T}, slow_to_fast in {F,T}; '
         'build_ind_val_matrices, make_indices_matrix and write_ind_val_dsets are run for real; non-trivial = at least two '
         'dimensions of size > 1')
@@ -172,6 +172,20 @@ def run_impl(inp, work):
                             'vlabels': strs(hv.attrs['labels']), 'vunits': strs(hv.attrs['units']),
                             'ind': ind.tolist(), 'val': _q(val), 'ind_dtype': str(hi.dtype), 'val_dtype': str(hv.dtype),
                             'names': [hi.name.split('/')[-1], hv.name.split('/')[-1]]}
+            # the caller's own sequence after the call, and the same call once more with the very same objects
+            if isinstance(dobjs, (list, tuple)):
+                out['write']['args_after'] = [d.name for d in dobjs]
+                with quiet():
+                    r2 = call(write_ind_val_dsets, parent, dobjs, is_spectral=inp['spec'], slow_to_fast=inp['s2f'],
+                              base_name='Again')
+                if r2[0] == 'ok':
+                    h2i, h2v = r2[1]
+                    i2, v2 = (h2i[()], h2v[()]) if inp['spec'] else (h2i[()].T, h2v[()].T)
+                    out['write']['again'] = {'labels': strs(h2i.attrs['labels']), 'same': bool(
+                        np.array_equal(i2, ind) and np.array_equal(v2, val) and
+                        strs(h2i.attrs['units']) == out['write']['units'])}
+                else:
+                    out['write']['again'] = {'err': r2[1]}
         else:
             out['write'] = {'err': r[1]}
     return out
@@ -225,6 +239,11 @@ def oracle(inp, obs):
                          '(slow_to_fast=%s, spectral=%s)' % (inp['s2f'], inp['spec']))
         if w['ind_dtype'] != 'uint32' or w['val_dtype'] != 'float32':
             fails.append('write-dtypes: %s / %s' % (w['ind_dtype'], w['val_dtype']))
+        if 'args_after' in w and w['args_after'] != [d['name'] for d in dims]:
+            fails.append('write-mutates-arguments: the caller\'s sequence of dimensions reads %s after the call' % w['args_after'])
+        if 'again' in w and ('err' in w['again'] or w['again']['labels'] != w['labels'] or not w['again']['same']):
+            fails.append('write-repeat: writing the same sequence of dimensions a second time stored %s, the first time %s'
+                         % (w['again'].get('labels', w['again'].get('err')), w['labels']))
         base = 'Spectroscopic' if inp['spec'] else 'Position'
         if inp.get('form', {}).get('base_name'):
             base = inp['form']['base_name'].rstrip('_')
